@@ -117,6 +117,13 @@ theorem okNested_ext {all : List String} {te te' : C.TyEnv} (hext : Ext all te t
   | aug x op e =>
     simp only [Stmt.okNested, Bool.and_eq_true, beq_iff_eq] at h ⊢
     exact ⟨(wt_sub hext.1 e h.1).1, hext.1 _ _ h.2⟩
+  | tuple k xs es =>
+    simp only [Stmt.okNested, Bool.and_eq_true] at h ⊢
+    obtain ⟨⟨⟨⟨hl, hwt⟩, htg⟩, hall⟩, hte⟩ := h
+    have hwt' : ∀ e ∈ es, e.wt te = true := List.all_eq_true.mp hwt
+    refine ⟨⟨⟨⟨hl, ?_⟩, okTargets_sub hext.1 xs es hwt' htg⟩, hall⟩, noTmp_ext hext.2 hall hte⟩
+    exact List.all_eq_true.mpr (fun e he => (wt_sub hext.1 e (hwt' e he)).1)
+  | ctuple k ts xs es => simp only [Stmt.okNested] at h; cases h
   | ifs c a b iha ihb =>
     simp only [Stmt.okNested, Bool.and_eq_true] at h ⊢
     exact ⟨⟨(wt_sub hext.1 c h.1.1).1, iha hext h.1.2⟩, ihb hext h.2⟩
@@ -143,7 +150,7 @@ theorem okNested_ext {all : List String} {te te' : C.TyEnv} (hext : Ext all te t
     exact (wt_sub hext.1 e h).1
   | brk => rfl
 
-theorem trNested_ext {all : List String} {te te' : C.TyEnv} {m : Bool} {d : Nat} {s s' : Stmt}
+theorem trNested_ext {all : List String} {te te' : C.TyEnv} {m : Bool} {d : Nat} {s s' : Stmt} (hs : Sub te te')
     (hok : s.okNested all te' = true) (h : trNested te m d s = .ok s') : trNested te' m d s = .ok s' := by
   induction s generalizing te te' d s' with
   | skip => simp only [trNested] at h ⊢; exact h
@@ -152,7 +159,7 @@ theorem trNested_ext {all : List String} {te te' : C.TyEnv} {m : Bool} {d : Nat}
     rw [trNested] at h ⊢
     obtain ⟨a', ha, h⟩ := bind_ok h
     obtain ⟨b', hb, h⟩ := bind_ok h
-    rw [iha hok.1 ha, ok_bind, ihb hok.2 hb, ok_bind]; exact h
+    rw [iha hs hok.1 ha, ok_bind, ihb hs hok.2 hb, ok_bind]; exact h
   | assign x e =>
     simp only [Stmt.okNested, Bool.and_eq_true, beq_iff_eq] at hok
     rw [trNested] at h ⊢
@@ -165,17 +172,26 @@ theorem trNested_ext {all : List String} {te te' : C.TyEnv} {m : Bool} {d : Nat}
     split at h
     · rw [hok.2]; exact h
     · cases h
+  | tuple k xs es =>
+    simp only [Stmt.okNested, Bool.and_eq_true, beq_iff_eq] at hok
+    rw [trNested] at h ⊢
+    split at h
+    · rename_i hc
+      cases h
+      rw [if_pos ⟨hc.1, hok.1.1.2⟩, okTargets_types hs xs es hc.1 hc.2 hok.1.1.2]
+    · cases h
+  | ctuple k ts xs es => rw [trNested] at h; cases h
   | ifs c a b iha ihb =>
     simp only [Stmt.okNested, Bool.and_eq_true] at hok
     rw [trNested] at h ⊢
     obtain ⟨a', ha, h⟩ := bind_ok h
     obtain ⟨b', hb, h⟩ := bind_ok h
-    rw [iha hok.1.2 ha, ok_bind, ihb hok.2 hb, ok_bind]; exact h
+    rw [iha hs hok.1.2 ha, ok_bind, ihb hs hok.2 hb, ok_bind]; exact h
   | whileLoop c b ihb =>
     simp only [Stmt.okNested, Bool.and_eq_true] at hok
     rw [trNested] at h ⊢
     obtain ⟨b', hb, h⟩ := bind_ok h
-    rw [ihb hok.2 hb, ok_bind]; exact h
+    rw [ihb hs hok.2 hb, ok_bind]; exact h
   | forRange i n b ihb =>
     simp only [Stmt.okNested, Bool.and_eq_true, Bool.not_eq_true', List.contains_eq_mem,
       decide_eq_false_iff_not, Option.isNone_iff_eq_none] at hok
@@ -185,7 +201,7 @@ theorem trNested_ext {all : List String} {te te' : C.TyEnv} {m : Bool} {d : Nat}
     · obtain ⟨b', hb, h⟩ := bind_ok h
       rw [hok.1.1.2]
       simp only [Option.isSome_none, Bool.false_eq_true, if_false]
-      rw [ihb hok.2 hb, ok_bind]; exact h
+      rw [ihb (Sub_cons_cons i .int hs) hok.2 hb, ok_bind]; exact h
   | write e => rw [trNested] at h ⊢; exact h
   | sleep e => rw [trNested] at h ⊢; exact h
   | brk => rw [trNested] at h ⊢; exact h
